@@ -102,6 +102,7 @@ func idNum(a *agent.Agent) int64 {
 type obs struct {
 	parentOf map[int64]int64 // child id -> parent id, only for linked agents
 	known    map[int64]bool
+	dormant  map[int64]int64 // child id -> stored parent id of the tolerated rows that are not live links
 }
 
 func (o obs) isAncestor(anc, of int64) bool { // anc is a proper ancestor of `of`
@@ -128,31 +129,38 @@ func (o obs) children(p int64) []int64 {
 
 // invariants evaluates the statement on the in-memory graph and TS_Links.  who maps an
 // agent id to its role in the last event (actor / named / other) for the signature.
-// reopenable: a restart is only generated when every stored link joins two active
-// sessions.  A row that names an inactive session (possible after a disconnect reported by
-// a non-parent, or a connect sent by a session marked dead) is not restored by Start();
-// what the property demands of such a dangling row after a restart is not fixed by the
-// statement, so those histories simply do not reopen.
-func reopenable(w *pvx.World) bool {
+//
+// Restarts and dormant rows.  A restart restores the sessions stored as active only.  A
+// stored link whose parent or child is stored inactive (possible after a disconnect of an
+// agent that has links of its own, after a disconnect reported by a non-parent, or after a
+// connect sent by a session marked dead) has then no counterpart in the session graph; the
+// unchanged tree keeps such a row, and what the statement demands of it is not fixed (the
+// session it belongs to may come back).  Those rows are collected right after each restart
+// (dormantAfterReopen) and tolerated for as long as they stay in the table unchanged; a
+// dormant row that becomes a live link again, or disappears, is no longer dormant.  Every
+// other row must be a live link, every live link must have its row, and - dormant or not -
+// no agent may be the child in more than one row (at most one stored parent).
+func dormantAfterReopen(w *pvx.World) (map[pvx.LinkRow]bool, error) {
 	rows, err := pvx.LinkRows(w.SQL)
 	if err != nil {
-		return false
+		return nil, err
 	}
-	act := map[int64]bool{}
+	mem := map[int64]bool{}
 	for _, a := range w.TS.Agents.Agents {
-		if a != nil && a.Active {
-			act[idNum(a)] = true
+		if a != nil {
+			mem[idNum(a)] = true
 		}
 	}
+	d := map[pvx.LinkRow]bool{}
 	for _, r := range rows {
-		if !act[r.Parent] || !act[r.Child] {
-			return false
+		if !mem[r.Parent] || !mem[r.Child] {
+			d[r] = true
 		}
 	}
-	return true
+	return d, nil
 }
 
-func invariants(w *pvx.World, after string, role func(int64) string) (obs, *core.Violation) {
+func invariants(w *pvx.World, after string, role func(int64) string, dormant map[pvx.LinkRow]bool) (obs, *core.Violation) {
 	o := obs{parentOf: map[int64]int64{}, known: map[int64]bool{}}
 	ags := w.TS.Agents.Agents
 	for _, a := range ags {
@@ -239,10 +247,32 @@ func invariants(w *pvx.World, after string, role func(int64) string) (obs, *core
 			return o, core.V("db|missing-row|after="+after, "live link %08x -> %08x has no row in TS_Links (rows: %v)\n%s", p, c, rows, dump(w))
 		}
 	}
-	for r := range have {
-		if p, ok := o.parentOf[r.Child]; !ok || p != r.Parent {
+	storedParents := map[int64][]int64{}
+	for _, r := range rows {
+		storedParents[r.Child] = append(storedParents[r.Child], r.Parent)
+	}
+	for _, r := range rows { // in table order: deterministic
+		if ps := storedParents[r.Child]; len(ps) > 1 {
+			return o, core.V("db|two-stored-parents|who="+role(r.Child)+"|after="+after, "TS_Links names %d parents for %08x (%08x and %08x): at most one stored parent per agent; the next restart takes the first (rows: %v)\n%s", len(ps), r.Child, ps[0], ps[1], rows, dump(w))
+		}
+	}
+	for _, r := range rows {
+		if p, ok := o.parentOf[r.Child]; ok && p == r.Parent {
+			delete(dormant, r) // live (again)
+			continue
+		}
+		if !dormant[r] {
 			return o, core.V("db|stale-row|after="+after, "TS_Links holds (%08x,%08x) but that is not a live link (rows: %v)\n%s", r.Parent, r.Child, rows, dump(w))
 		}
+	}
+	for r := range dormant {
+		if have[r] == 0 {
+			delete(dormant, r) // gone: a later row with the same pair is an ordinary row
+		}
+	}
+	o.dormant = map[int64]int64{}
+	for r := range dormant {
+		o.dormant[r.Child] = r.Parent
 	}
 	return o, nil
 }
@@ -371,6 +401,7 @@ func runCase(c Case, mode string) *core.Violation {
 
 	reqID := uint32(0x1000)
 	noRole := func(int64) string { return "other" }
+	dormant := map[pvx.LinkRow]bool{}
 
 	for _, i := range c.Init {
 		if i < 0 || i >= len(c.IDs) || w.Agent(c.IDs[i]) != nil {
@@ -381,7 +412,7 @@ func runCase(c Case, mode string) *core.Violation {
 			panic(fmt.Sprintf("harness: initial registration of %08x not acknowledged", c.IDs[i]))
 		}
 	}
-	pre, v := invariants(w, "init", noRole)
+	pre, v := invariants(w, "init", noRole, dormant)
 	if v != nil {
 		return v
 	}
@@ -393,13 +424,13 @@ func runCase(c Case, mode string) *core.Violation {
 		actorID := c.IDs[op.A]
 		actor := w.Agent(actorID)
 		if op.K == "reopen" {
-			if !reopenable(w) {
-				continue
-			}
 			if err := w.Reopen(); err != nil {
 				return core.V("reopen|failed", "step %d: reopening the database file: %v", step, err)
 			}
-			post, v := invariants(w, "reopen", noRole)
+			if dormant, err = dormantAfterReopen(w); err != nil {
+				return core.V("harness|cannot-read-links", "reading TS_Links: %v", err)
+			}
+			post, v := invariants(w, "reopen", noRole, dormant)
 			if v != nil {
 				v.Msg = fmt.Sprintf("step %d (reopen): %s", step, v.Msg)
 				return v
@@ -497,7 +528,7 @@ func runCase(c Case, mode string) *core.Violation {
 			return v
 		}
 
-		post, v := invariants(w, class, role)
+		post, v := invariants(w, class, role, dormant)
 		if v != nil {
 			if strings.HasPrefix(v.Sig, "cycle|") && os.Getenv("VERIF_C09_HANGPROBE") != "" {
 				// demonstration only (replays): show that the cycle makes the next task hang
@@ -577,10 +608,47 @@ type model struct {
 	parent map[int]int
 	active map[int]bool
 	cut    map[int]bool // detached by a disconnect of its parent and not linked again since
+	rows   map[int]int  // TS_Links as the unchanged tree keeps it: child -> stored parent (survives restarts)
+	gone   map[int]bool // known once, not restored by a restart since
+}
+
+// orphanOf: x is in memory without a parent while a stored row still names one; the stored
+// parent and whether that parent is in memory are returned.
+func (m *model) orphanOf(x int) (p int, ok bool) {
+	p, ok = m.rows[x]
+	if !ok || !m.known[x] {
+		return 0, false
+	}
+	if cur, has := m.parent[x]; has && cur == p {
+		return 0, false
+	}
+	return p, true
+}
+
+// orphans: the agents in memory whose stored parent is not in memory, in universe order.
+func (m *model) orphans() []int {
+	var out []int
+	for _, x := range m.sortedKnown() {
+		if p, ok := m.orphanOf(x); ok && !m.known[p] && x < m.n {
+			out = append(out, x)
+		}
+	}
+	return out
+}
+
+// inner: the agents in memory that have a parent and at least one link, in universe order.
+func (m *model) inner() []int {
+	var out []int
+	for _, x := range m.sortedKnown() {
+		if p, ok := m.parent[x]; ok && x < m.n && p < m.n && m.nlinks(x) > 0 {
+			out = append(out, x)
+		}
+	}
+	return out
 }
 
 func newModel(c Case) *model {
-	m := &model{n: len(c.IDs), known: map[int]bool{}, parent: map[int]int{}, active: map[int]bool{}, cut: map[int]bool{}}
+	m := &model{n: len(c.IDs), known: map[int]bool{}, parent: map[int]int{}, active: map[int]bool{}, cut: map[int]bool{}, rows: map[int]int{}, gone: map[int]bool{}}
 	for _, i := range c.Init {
 		if i >= 0 && i < len(c.IDs) {
 			m.known[i] = true
@@ -675,6 +743,16 @@ type summary struct {
 	acrossTrees                       bool // a known agent was linked below an agent of another tree
 	reopenDeep                        bool // a reopen while some agent was 16 or more hops deep
 	deathMid                          bool // an agent with a parent and at least one link died
+	reopenDormant                     int  // restarts while a stored link named a session stored inactive
+	reopenAfterInnerCut               bool // a restart directly after the disconnect of an agent that had links
+	reopenTwice                       bool // two restarts in a row
+	orphanConnect                     bool // an accepted connect named an agent in memory whose stored parent was not
+	orphanConnectLive                 bool // ... whose stored parent was in memory, the stored link not being live
+	unrestoredConnect                 bool // a connect brought back an unrestored agent that a stored row names as child
+	orphanBackBelowParent             bool // an orphan was linked below its re-registered stored parent
+	reopenAfterOrphanConnect          bool // a restart after one of the three above
+	lastKind                          string
+	lastInnerCut                      bool
 }
 
 // step applies one event of the history to the model and records it in s.
@@ -683,30 +761,42 @@ func (m *model) step(op Op, s *summary) {
 		return
 	}
 	if op.K == "reopen" {
-		ok := true
-		for ch, p := range m.parent {
-			if !m.active[ch] || !m.active[p] {
-				ok = false
+		defer func() { s.lastKind, s.lastInnerCut = "reopen", false }()
+		// the restore loop of Start(): the sessions stored as active come back, a stored link
+		// is restored when both ends did; the table itself is not touched
+		dangling := false
+		for ch, p := range m.rows {
+			if !m.known[ch] || !m.active[ch] || !m.known[p] || !m.active[p] {
+				dangling = true
 			}
 		}
-		if !ok {
-			return
-		}
-		// only active sessions come back
 		for a := range m.known {
 			if !m.active[a] {
 				delete(m.known, a)
-				delete(m.parent, a)
 				delete(m.cut, a)
+				m.gone[a] = true
 			}
 		}
-		for ch, p := range m.parent {
-			if !m.known[p] {
-				delete(m.parent, ch)
+		m.parent = map[int]int{}
+		for ch, p := range m.rows {
+			if m.known[ch] && m.known[p] {
+				m.parent[ch] = p
 			}
 		}
 		s.classes["reopen"]++
 		s.reopens++
+		if dangling {
+			s.reopenDormant++
+		}
+		if s.lastKind == "reopen" {
+			s.reopenTwice = true
+		}
+		if s.lastInnerCut {
+			s.reopenAfterInnerCut = true
+		}
+		if s.orphanConnect || s.orphanConnectLive || s.unrestoredConnect {
+			s.reopenAfterOrphanConnect = true
+		}
 		if m.maxDepth() >= 16 {
 			s.reopenDeep = true
 		}
@@ -716,6 +806,8 @@ func (m *model) step(op Op, s *summary) {
 		if !m.known[op.A] {
 			m.known[op.A] = true
 			m.active[op.A] = true
+			delete(m.gone, op.A)
+			s.lastKind, s.lastInnerCut = "reg", false
 			s.classes["reg"]++
 			s.effective++
 		}
@@ -724,6 +816,12 @@ func (m *model) step(op Op, s *summary) {
 	if !m.known[op.A] {
 		return
 	}
+	defer func() { // events that the interpreter skips do not count as "in between"
+		s.lastKind = op.K
+		if op.K != "disconnect" {
+			s.lastInnerCut = false
+		}
+	}()
 	s.effective++
 	if s.reopens > 0 && (op.K == "connect" || op.K == "disconnect" || op.K == "exit" || op.K == "killdate" || op.K == "markdead") {
 		s.eventsAfterReopen = true
@@ -758,9 +856,14 @@ func (m *model) step(op Op, s *summary) {
 			}
 		case !m.known[b]:
 			cl = "connect-new"
+			if _, stored := m.rows[b]; stored && m.gone[b] {
+				s.unrestoredConnect = true
+			}
+			delete(m.gone, b)
 			m.known[b] = true
 			m.active[b] = true
 			m.parent[b] = op.A
+			m.rows[b] = op.A
 		case m.anc(b, op.A):
 			cl = "connect-ancestor"
 			s.ancc = true
@@ -791,7 +894,18 @@ func (m *model) step(op Op, s *summary) {
 			} else {
 				cl = "connect-toplevel"
 			}
+			if p, ok := m.orphanOf(b); ok {
+				switch {
+				case p == op.A:
+					s.orphanBackBelowParent = true
+				case !m.known[p]:
+					s.orphanConnect = true
+				default:
+					s.orphanConnectLive = true
+				}
+			}
 			m.parent[b] = op.A
+			m.rows[b] = op.A
 			m.active[b] = true
 			delete(m.cut, b)
 		}
@@ -814,8 +928,13 @@ func (m *model) step(op Op, s *summary) {
 				cl = "disconnect-child"
 				delete(m.parent, b)
 				m.cut[b] = true
+				s.lastInnerCut = m.nlinks(b) > 0
 			} else {
 				cl = "disconnect-nonchild"
+				s.lastInnerCut = false
+			}
+			if p, ok := m.rows[b]; ok && p == op.A { // LinkRemove deletes the row (sender, named)
+				delete(m.rows, b)
 			}
 			m.active[b] = false // LinkRemove marks the named agent "Disconnected" either way
 		}
@@ -830,11 +949,17 @@ func (m *model) step(op Op, s *summary) {
 				s.deathMid = true
 			}
 		}
+		if p, ok := m.parent[op.A]; ok && m.rows[op.A] == p {
+			delete(m.rows, op.A)
+		}
 		delete(m.parent, op.A)
 		m.active[op.A] = false
 		for ch, p := range m.parent {
 			if p == op.A {
 				delete(m.parent, ch)
+				if m.rows[ch] == op.A {
+					delete(m.rows, ch)
+				}
 				m.active[ch] = false
 			}
 		}
@@ -887,19 +1012,13 @@ func classify(c Case) core.Class {
 	}
 	ag := fmt.Sprintf("agents:%d", len(c.IDs))
 	switch {
-	case len(c.IDs) >= 40:
-		ag = "agents:40-70"
 	case len(c.IDs) >= 20:
-		ag = "agents:20-39"
+		ag = "agents:20-70" // = the large universes
 	case len(c.IDs) > 5:
 		ag = "agents:6-19"
 	}
 	cl.Labels = append(cl.Labels, "death-links:"+dl, ag, "db:"+c.dbMode())
-	if len(c.IDs) >= 20 {
-		cl.Labels = append(cl.Labels, "universe:large")
-	} else {
-		cl.Labels = append(cl.Labels, "universe:small")
-	}
+	// (the driver keeps the 60 most frequent labels of a sub-check: the label set stays below that)
 	if c.Shape != "" {
 		cl.Labels = append(cl.Labels, "shape:"+c.Shape)
 	}
@@ -911,12 +1030,15 @@ func classify(c Case) core.Class {
 		{s.ancNear, "cyclic-connect-at-distance:1-2"},
 		{s.ancMid, "cyclic-connect-at-distance:3-15"},
 		{s.ancFar, "cyclic-connect-at-distance>=16"},
-		{s.selfDeep, "self-connect-at-depth>=16"},
 		{s.cutReconnect, "cut-subtree-reconnected-below-own-descendant"},
-		{s.cutReconnectFar, "cut-subtree-reconnected-below-own-descendant>=16-hops-down"},
-		{s.acrossTrees, "connect-across-trees"},
 		{s.reopenDeep, "reopen-at-depth>=16"},
-		{s.deathMid, "death-of-an-inner-agent"},
+		{s.reopenDormant > 0, "reopen-with-stored-link-to-inactive-session"},
+		{s.reopenAfterInnerCut, "reopen-right-after-disconnect-of-an-inner-agent"},
+		{s.reopenTwice, "two-reopens-in-a-row"},
+		{s.orphanConnect, "connect-names-agent-whose-stored-parent-is-not-in-memory"},
+		{s.orphanConnectLive || s.unrestoredConnect, "connect-names-agent-with-other-dormant-stored-parent"},
+		{s.orphanBackBelowParent, "orphan-linked-back-below-its-re-registered-stored-parent"},
+		{s.reopenAfterOrphanConnect, "reopen-after-connect-naming-an-orphan"},
 	} {
 		if f.on {
 			cl.Labels = append(cl.Labels, f.l)
@@ -958,6 +1080,9 @@ func classify(c Case) core.Class {
 			db = ">=16"
 		}
 		cl.Fingerprint += fmt.Sprintf("|depth=%s|far=%v", db, s.ancFar)
+	}
+	if s.reopenDormant > 0 {
+		cl.Fingerprint += fmt.Sprintf("|dormant|orphan=%v|again=%v", s.orphanConnect || s.orphanConnectLive || s.unrestoredConnect || s.orphanBackBelowParent, s.reopenAfterOrphanConnect)
 	}
 	return cl
 }
